@@ -1207,6 +1207,50 @@ fn c06_fashare_run(spec: &PreSpec) -> (Vec<Violation>, u64, u64) {
     (v, res.steps, looked)
 }
 
+/// The aBit consistency check publishes random linear combinations of a party's secret bits, blinded
+/// by extra bits that are thrown away. Every position must take part: if the combination helper gives
+/// some position the coefficient 0 in every combination, the blinding bits there blind nothing and
+/// the published parities are parities of kept (never to be disclosed) shares.
+fn c06_abit_combination(seed: u64) -> (Vec<Violation>, u64) {
+    let sv = json!({"abit_combination": seed});
+    let mut v = vec![];
+    let mut rng = entropy::rng(seed, 0xc06ab, 0);
+    let mut evals = 0u64;
+    let lens: Vec<usize> = (1..=260).chain([383, 384, 385, 500, 640, 1000]).collect();
+    for len in lens {
+        let blocks = len.div_ceil(128);
+        // 40 coefficient vectors
+        let rs: Vec<Vec<[u8; 16]>> = (0..40).map(|_| (0..blocks).map(|_| rng.random::<[u8; 16]>()).collect()).collect();
+        if pv::abit_combination(&vec![false; len], &rs[0]) {
+            v.push(viol("abit-combination-not-linear", "abit-combination-not-linear", format!("the combination of {len} zero bits is 1"), &sv));
+            return (v, evals);
+        }
+        for i in 0..len {
+            let mut e = vec![false; len];
+            e[i] = true;
+            evals += rs.len() as u64;
+            if !rs.iter().any(|r| pv::abit_combination(&e, r)) {
+                v.push(viol(
+                    "abit-check-position-never-selected",
+                    "abit-check-position-never-selected",
+                    format!("vector of {len} bits: position {i} has coefficient 0 in all of 40 random combinations (probability 2^-40 for a correct helper): the bit at that position never enters the published parities, so the blinding bits placed there blind nothing"),
+                    &sv,
+                ));
+                return (v, evals);
+            }
+        }
+        // linearity on two random vectors
+        let a: Vec<bool> = (0..len).map(|_| rng.random()).collect();
+        let b: Vec<bool> = (0..len).map(|_| rng.random()).collect();
+        let ab: Vec<bool> = a.iter().zip(&b).map(|(x, y)| x ^ y).collect();
+        if pv::abit_combination(&ab, &rs[1]) != (pv::abit_combination(&a, &rs[1]) ^ pv::abit_combination(&b, &rs[1])) {
+            v.push(viol("abit-combination-not-linear", "abit-combination-not-linear", format!("f(a^b) != f(a)^f(b) for {len} bits"), &sv));
+            return (v, evals);
+        }
+    }
+    (v, evals)
+}
+
 impl Check for C06 {
     fn id(&self) -> &'static str {
         "C06"
@@ -1215,7 +1259,7 @@ impl Check for C06 {
         "exploration"
     }
     fn rule(&self) -> String {
-        "each case fixes a configuration (n in {2,3}) and executes it N times per input value (N=200 quick, 2000 thorough; fresh coins and schedule seed each) with all input bits 0 resp. 1; from the transcript alone, for every input wire: b = decoded 'masked inputs' bit xor the bits the other parties sent to the owner in 'wire shares'; the count of b=1 must lie within 6.5 sigma of N/2 for input 0 and input 1 alike. Canary cases: a party with 128 random input bits, its outgoing traffic scanned for the run as 128 bool bytes, as 16 packed bytes in both bit orders and as a run in the decoded bool stream. Wide configurations (129 input wires) run under the balance test too, and there the vector of a party's own shares of the masks of its own input wires must not appear in its traffic, and the one-time pads of the half-authenticated AND (probed) must be fresh: no run of more than 64 equal pad bits, balanced overall. All probed global keys, and all own-mask vectors of >= 64 bits, must be pairwise distinct over all runs and parties. Secret randomness probed at its point of use (KOS choice-bit padding, OT-extension base key and seed pairs, base-OT sender scalar): every value has the byte diversity of random data and no 16-byte block of any of them occurs twice - at the same or another site, at the same or another party, in the same or another execution of the group. fashare level (n in 2..4, l in {1,2,3,7,40,128,129,1000}): none of the MACs a party holds on the shares fashare returns to it, and none of the keys it holds for the others' returned shares, appears at any byte offset (either byte order) in anything it sent - the consistency round opens only the RHO extra shares; and the rows of every OT-extension matrix ('ALSZ_OT_setup', up to 2428 columns) have no block pair whose XOR is the same in all rows (a keystream that repeats a block would expose the XOR of private choice bits). evaluations = simulated runs; distinct = (configuration, run) coins".into()
+        "each case fixes a configuration (n in {2,3}) and executes it N times per input value (N=200 quick, 2000 thorough; fresh coins and schedule seed each) with all input bits 0 resp. 1; from the transcript alone, for every input wire: b = decoded 'masked inputs' bit xor the bits the other parties sent to the owner in 'wire shares'; the count of b=1 must lie within 6.5 sigma of N/2 for input 0 and input 1 alike. Canary cases: a party with 128 random input bits, its outgoing traffic scanned for the run as 128 bool bytes, as 16 packed bytes in both bit orders and as a run in the decoded bool stream. Wide configurations (129 input wires) run under the balance test too, and there the vector of a party's own shares of the masks of its own input wires must not appear in its traffic, and the one-time pads of the half-authenticated AND (probed) must be fresh: no run of more than 64 equal pad bits, balanced overall. All probed global keys, and all own-mask vectors of >= 64 bits, must be pairwise distinct over all runs and parties. Secret randomness probed at its point of use (KOS choice-bit padding, OT-extension base key and seed pairs, base-OT sender scalar): every value has the byte diversity of random data and no 16-byte block of any of them occurs twice - at the same or another site, at the same or another party, in the same or another execution of the group. aBit check combination helper (hook): for every vector length 1..260 and some larger ones, every position is selected by at least one of 40 random coefficient vectors and the combination is linear (a position that never enters the published parities would leave kept shares unblinded). fashare level (n in 2..4, l in {1,2,3,7,40,128,129,1000}): none of the MACs a party holds on the shares fashare returns to it, and none of the keys it holds for the others' returned shares, appears at any byte offset (either byte order) in anything it sent - the consistency round opens only the RHO extra shares; and the rows of every OT-extension matrix ('ALSZ_OT_setup', up to 2428 columns) have no block pair whose XOR is the same in all rows (a keystream that repeats a block would expose the XOR of private choice bits). evaluations = simulated runs; distinct = (configuration, run) coins".into()
     }
     fn assumptions(&self) -> Vec<String> {
         vec![
@@ -1236,12 +1280,23 @@ impl Check for C06 {
         // fashare level: returned shares are not among the opened ones
         let fa = if tier == Tier::Quick { 4 } else { 40 };
         v.extend((0..fa).map(|k| json!({"seed": seed, "k": 3000 + k, "fashare": true})));
+        v.push(json!({"seed": seed, "k": 4000, "abit_combination": true}));
         v
     }
     fn run_case(&self, case: &Value, cx: &CaseCx) -> CaseOut {
         let seed = case["seed"].as_u64().unwrap();
         let k = case["k"].as_u64().unwrap();
         let mut rng = entropy::rng(seed, 0xc06, k);
+        if case.get("abit_combination").is_some() {
+            let mut out = CaseOut::default();
+            cx.begin(&json!({"abit_combination": seed}));
+            let (v, evals) = c06_abit_combination(seed);
+            out.evals = 1;
+            out.count("abit_combinations_evaluated", evals);
+            out.distinct.push(0xab17);
+            out.violations = v;
+            return out;
+        }
         if case.get("fashare").is_some() {
             let mut out = CaseOut::default();
             for j in 0..6usize {
@@ -1316,6 +1371,9 @@ impl Check for C06 {
         out
     }
     fn replay(&self, spec: &Value) -> Vec<Violation> {
+        if let Some(sd) = spec.get("abit_combination").and_then(|x| x.as_u64()) {
+            return c06_abit_combination(sd).0;
+        }
         if let Some(f) = spec.get("fashare") {
             return match serde_json::from_value::<PreSpec>(f.clone()) {
                 Ok(s) => c06_fashare_run(&s).0,
